@@ -20,14 +20,15 @@ import (
 )
 
 type replayEntry struct {
-	Template string   `json:"template"`
-	Pkg      string   `json:"pkg"`               // directory relative to repo root
-	Kinds    []string `json:"kinds,omitempty"`   // obligation kinds this template can replay (default: post, pre)
-	Match    string   `json:"match,omitempty"`   // substring the obligation name must contain
-	Package  string   `json:"package,omitempty"` // Go package name (default: last dir element)
-	Race     bool     `json:"race,omitempty"`
-	NoInputs bool     `json:"noinputs,omitempty"` // the replay needs no counterexample values
-	Pattern  string   `json:"pattern,omitempty"`  // further output substrings ("a|b") that mean "reproduced" (fatal errors cannot be recovered in the test)
+	Template  string   `json:"template"`
+	Pkg       string   `json:"pkg"`                  // directory relative to repo root
+	Kinds     []string `json:"kinds,omitempty"`      // obligation kinds this template can replay (default: post, pre)
+	Match     string   `json:"match,omitempty"`      // substring the obligation name must contain
+	ClauseHas string   `json:"clause_has,omitempty"` // substring the obligation's clause text must contain
+	Package   string   `json:"package,omitempty"`    // Go package name (default: last dir element)
+	Race      bool     `json:"race,omitempty"`
+	NoInputs  bool     `json:"noinputs,omitempty"` // the replay needs no counterexample values
+	Pattern   string   `json:"pattern,omitempty"`  // further output substrings ("a|b") that mean "reproduced" (fatal errors cannot be recovered in the test)
 }
 
 func init() {
@@ -95,8 +96,14 @@ func templateReplay(r *Report, v *Verdict) *ReplayResult {
 		fn = fn[:i]
 	}
 	var ent *replayEntry
-	for i := range idx[fn] {
-		e := &idx[fn][i]
+	// entries under the function's own key first, then the wildcard entries (key "*", selected by
+	// kind, name substring and clause substring: obligations synthesized by a sweep have no fixed name)
+	cands := append(append([]replayEntry{}, idx[fn]...), idx["*"]...)
+	for i := range cands {
+		e := &cands[i]
+		if e.ClauseHas != "" && !strings.Contains(v.Ob.Src, e.ClauseHas) {
+			continue
+		}
 		kinds := e.Kinds
 		if len(kinds) == 0 {
 			kinds = []string{"post", "pre"}
